@@ -12,6 +12,7 @@ import (
 	"sort"
 	"strconv"
 	"strings"
+	"sync"
 
 	"golang.org/x/tools/go/ssa"
 )
@@ -138,14 +139,18 @@ type jfield struct {
 }
 
 var fieldCache = map[string][]jfield{}
+var fieldCacheMu sync.Mutex
 
 func isExportedName(n string) bool { return n != "" && n[0] >= 'A' && n[0] <= 'Z' }
 
 func jsonFields(t types.Type) []jfield {
 	key := t.String()
+	fieldCacheMu.Lock()
 	if f, ok := fieldCache[key]; ok {
+		fieldCacheMu.Unlock()
 		return f
 	}
+	fieldCacheMu.Unlock()
 	type cand struct {
 		jfield
 		depth int
@@ -256,7 +261,9 @@ func jsonFields(t types.Type) []jfield {
 		}
 		out = append(out, best[0].jfield)
 	}
+	fieldCacheMu.Lock()
 	fieldCache[key] = out
+	fieldCacheMu.Unlock()
 	return out
 }
 
